@@ -20,7 +20,7 @@ META = dict(
         "raw inputs are sequences of Unicode scalar values; lone surrogates only enter through numeric entities",
         "markup nesting deeper than 40 is outside the property (it exhausts the interpreter stack by construction)",
         "work is counted as Python call/c_call events (sys.setprofile); work inside Cython/C code is invisible to the counter and "
-        "only bounded by the 60 s CPU alarm",
+        "only bounded by the 15 s CPU limit",
     ],
     floors={"nontrivial": (0.3, None), "db": (0.2, None), "class:entity": (0.05, None), "kind:nest": (0.1, None)},
     stall_s=180,
@@ -78,6 +78,8 @@ def run_shard(ctx):
     @ctx.settings(ctx.n(16000, 320000))
     @given(_tree.soup_case(max_lex))
     def t(case):
+        if _tree.exhausted():
+            return
         ctx.announce(slim(case))
         tree, work = evaluate(ctx, case)
         text = _tree.text_of(case)
@@ -104,7 +106,7 @@ def run_shard(ctx):
     @given(S.soup(6), st.sampled_from(_tree.LANGS), st.one_of(st.none(), _tree.template_universe()))
     def g(lex, lang, db):
         case = dict(parts=[l for _, l in lex], lang=lang, db=db, ladder=True)
-        if not "".join(case["parts"]):
+        if not "".join(case["parts"]) or _tree.exhausted():
             return
         ctx.announce(case)
         works = growth(ctx, case)
@@ -119,7 +121,7 @@ def run_shard(ctx):
             units.append([lx])
             units.append([lx, "a"])
     for i, unit in enumerate(units):
-        if i % ctx.nshards != ctx.shard:
+        if i % ctx.nshards != ctx.shard or _tree.exhausted():
             continue
         case = dict(parts=unit, lang="en", db=None, ladder=True)
         ctx.announce(case)
@@ -127,8 +129,10 @@ def run_shard(ctx):
         ctx.record("ladder" + jdump(case), ["ladder", "ladder-systematic"], True)
     ctx.exhaustive.append("growth ladder for each of the %d lexemes of length <= 40, alone and followed by a word" % (len(units) // 2))
 
-    # shrink one representative per bucket found by this shard
-    for bucket, f in list(ctx.failures.items())[:6]:
+    if _tree.exhausted():
+        ctx.inconclusive.append("shard %d stopped generating after 3 CPU overruns" % ctx.shard)
+    # shrink one representative per bucket found by this shard (not the hangs: every probe would cost the limit again)
+    for bucket, f in [kv for kv in ctx.failures.items() if "hang" not in kv[0]][:6]:
         case = f["case"]
         if case.get("ladder"):
             continue
